@@ -153,6 +153,15 @@ def stepC14 (s : St) (ws : List String) : St × Resp :=
   -- are the model-side counterpart, so the model column is empty and the spec demands zero failures
   | ["sweep", _, _] => (s, { model := "-", spec := "fail=0 first=0" })
   | ["monosweep", _, _] => (s, { model := "-", spec := "fail=0 first=0" })
+  -- a compatibility decision between sketches created at a and at b (receiver empty): the code
+  -- compares ceilings; the spec says what the user asked for decides (for values ≤ 2^31 the two agree
+  -- by the round-trip theorem: different requests have different ceilings)
+  | ["compat", a, b] =>
+    let a := a.toNat!; let b := b.toNat!
+    let ra := scaledForMaxHash (maxHashForScaled a)
+    let m := if maxHashForScaled a == maxHashForScaled b then s!"ok {ra}" else s!"err MismatchScaled {ra}"
+    let sp := if a ≤ pow31 && b ≤ pow31 && 1 ≤ a && 1 ≤ b then (if a == b then s!"ok {a}" else s!"err MismatchScaled {a}") else "-"
+    (s, { model := m, spec := sp })
   | ["mono", a, b] =>
     let a := a.toNat!; let b := b.toNat!
     let (lo, hi) := if a ≤ b then (a, b) else (b, a)
